@@ -25,3 +25,73 @@ def install(spec: Spec):
                 ('self', "implies(semaphore_scope == 'self' and len(args) > 0, result == fmt2(id(args[0]), (semaphore_name or func_name)))", ['C20']),
                 ('fallback', "implies(len(args) == 0, result == (semaphore_name or func_name))", ['C20']),
             ])
+
+    # ------------------------------------------------------------------ C19: _execute_with_retries
+    from pyvc import models
+    from pyvc.values import mk_int, V, REAL, coerce
+    import z3
+
+    spec.ghosts['calls'] = models.parse_ty('int')          # number of times the wrapped function was entered
+    spec.ghosts['sleeps'] = models.parse_ty('list[real]')  # arguments of asyncio.sleep between attempts, in order
+    spec.ghosts['last_exc'] = models.parse_ty('any')       # exception that ended the most recent attempt
+    spec.ghosts['last_result'] = models.parse_ty('any')    # value returned by the most recent successful attempt
+
+    def not_after_cancel(ex, what):
+        # cancellation of the caller is never swallowed or retried: once a CancelledError was delivered to this task,
+        # no further attempt and no further backoff sleep may start
+        ex.oblige('callsite:%s/requires' % what, 'not_after_cancel', z3.BoolVal(not ex.st.flags.get('cancelled')), ['C19'])
+
+    def func_pre(ex):
+        not_after_cancel(ex, 'func')
+        ex.ghost_set('calls', mk_int(ex.ghost('calls').term + 1))
+
+    def func_post(ex, res):
+        ex.ghost_set('last_result', res)
+
+    def func_raise(ex, exc):
+        ex.ghost_set('last_exc', exc)
+
+    def sleep_model(ex, n, awaited, recv=None):
+        not_after_cancel(ex, 'asyncio.sleep')
+        t = coerce(ex.eval(n.args[0]), REAL)
+        sl = ex.ghost('sleeps')
+        ex.ghost_set('sleeps', ex.list_append(sl, t))
+        ex.suspend('asyncio.sleep')
+        return models.mk_none()
+
+    spec.fn('helpers._execute_with_retries', file=F, qual='_execute_with_retries', is_async=True,
+            params={'func': 'py', 'args': 'py', 'kwargs': 'py', 'retries': 'int', 'timeout': 'real', 'wait': 'real',
+                    'backoff_factor': 'real', 'retry_on': 'any', 'start_time': 'real', 'sem_start': 'real', 'semaphore_limit': 'opt[int]'},
+            returns='any',
+            requires=[('retries_nonneg', 'retries >= 0', ['C19'])],
+            ghost_modifies=['calls', 'sleeps', 'last_exc', 'last_result'],
+            callsites={
+                'func(*args, **kwargs)': {'model': models.user_call('func', pre=func_pre, post=func_post, on_raise=func_raise),
+                                          'ghost_writes': ['calls', 'last_exc', 'last_result'], 'suspends': True},
+                'asyncio.sleep': {'model': sleep_model, 'ghost_writes': ['sleeps'], 'suspends': True},
+            },
+            loops={0: {'inv': [
+                ('calls', 'calls == old(calls) + loop_i', ['C19']),
+                ('nsleeps', 'len(sleeps) == len(old(sleeps)) + loop_i', ['C19']),
+                ('bound', 'loop_i <= retries', ['C19']),
+                ('old_sleeps_kept', 'forall(lambda k: implies(0 <= k and k < len(old(sleeps)), sleeps[k] == old(sleeps)[k]))', ['C19']),
+                ('waits', 'forall(lambda k: implies(0 <= k and k < loop_i, sleeps[len(old(sleeps)) + k] == wait * backoff_factor ** k))', ['C19']),
+            ]}},
+            ensures=[
+                ('at_most', 'calls - old(calls) <= retries + 1 and calls - old(calls) >= 1', ['C19']),
+                ('first_success', 'result is last_result', ['C19']),
+                ('no_sleep_after_success', 'len(sleeps) == len(old(sleeps)) + (calls - old(calls)) - 1', ['C19']),
+                ('waits', 'forall(lambda k: implies(0 <= k and k < calls - old(calls) - 1, sleeps[len(old(sleeps)) + k] == wait * backoff_factor ** k))', ['C19']),
+            ],
+            raises=[
+                RaisesClause('Exception', label='failure', tags=['C19'], ensures=[
+                    ('last_error', 'raised is last_exc', ['C19']),
+                    ('at_most', 'calls - old(calls) <= retries + 1 and calls - old(calls) >= 1', ['C19']),
+                    ('exhausted_or_unlisted', 'calls - old(calls) == retries + 1 or (retry_on is not None and not isinstance(raised, retry_on))', ['C19']),
+                    ('no_sleep_after_last', 'len(sleeps) == len(old(sleeps)) + (calls - old(calls)) - 1', ['C19']),
+                    ('waits', 'forall(lambda k: implies(0 <= k and k < calls - old(calls) - 1, sleeps[len(old(sleeps)) + k] == wait * backoff_factor ** k))', ['C19']),
+                ]),
+                RaisesClause('CancelledError', label='cancelled', tags=['C19'], ensures=[
+                    ('at_most', 'calls - old(calls) <= retries + 1', ['C19']),
+                ]),
+            ])
